@@ -128,7 +128,7 @@ CHAIN_H = ["CreateDeployment", "DepositDeployment", "UpdateDeployment", "CloseDe
 def chain_job(owner):
     return {
         "pkg": "zzverif/chain", "pkgname": "zzchain",
-        "files": ["harness/CHAIN/chain.go", "harness/CHAIN/inv.go", "harness/CHAIN/step.go"],
+        "files": ["harness/CHAIN/chain.go", "harness/CHAIN/inv.go", "harness/CHAIN/step.go", "harness/CHAIN/events.go"],
         "extra_overlays": {"x/market/keeper/zz_verif_export.go": "harness/CHAIN/export_market.go"},
         "shims": ["shim.go.tmpl", "shim_chain.go.tmpl"],
         "quick": ["Harness_CHAIN_%s_12" % h for h in CHAIN_H],
@@ -144,7 +144,7 @@ CHAIN_BOUNDS = {
 CHAIN_ASSUME = ["INV (DESIGN §4, Appendix A) is assumed of the pre-state and asserted of the post-state: induction over histories of any length inside the identifier universe",
     "a failing or panicking handler leaves the state unchanged (SDK transaction semantics); ValidateBasic runs before the handler",
     "pre-state records are written through the keepers' own save/update functions and keys"]
-for pid in ("C04", "C05"):
+for pid in ("C04", "C05", "C16"):
     PROPS[pid] = {"jobs": [chain_job(pid)], "bounds": CHAIN_BOUNDS, "stubs": CHAIN_STUBS + ["params subspace -> value kept in the context model", "telemetry -> no-op"],
         "outside_claim": ["more than one group per deployment, more than 2 order/provider slots", "provider deletion (unimplemented in the repo)", "Begin/EndBlock (empty for the akash modules)"],
         "assumptions": CHAIN_ASSUME}
